@@ -23,6 +23,42 @@ theorem wire_some_sub (k : Core) (n x i : Nat) (p : Nat × Nat)
   · exact Or.inl (by rw [h]; exact List.mem_cons_self)
   · exact Or.inr ⟨j, (mem_intsOf _ _ _).2 hj, h⟩
 
+theorem foldl_from_mono' {α : Type} (a b : α → Nat) (l : List α) (k : Core) (p : Nat × Nat)
+    (h : p ∈ k.frm) : p ∈ (l.foldl (fun k j => k.from (a j) (b j)) k).frm :=
+  (mem_foldl_from' a b l k p).2 (Or.inl h)
+
+/-- The internal node `i` of a passed operation receives every input `fin` that the step `n` had
+before this argument. No exception: when the argument's own node `x` was already an input of `n`
+(the same source passed a second time), `i` receives `x` as well. -/
+theorem wire_some_inputs (k : Core) (n x i fin : Nat) (h : (n, fin) ∈ k.frm) :
+    (i, fin) ∈ (wire k n x (some i)).frm := by
+  simp only [wire]
+  have hrep : fin = x → (objectsOf (k.from x i).frm n).contains x = true := by
+    intro hfx
+    rw [List.contains_iff_mem, mem_objectsOf]
+    exact List.mem_cons_of_mem _ (hfx ▸ h)
+  generalize (objectsOf (k.from x i).frm n).contains x = rep at hrep
+  rw [mem_foldl_from (fun fin => x != fin || rep) (fun _ => i) (fun fin => fin)]
+  refine Or.inr ⟨fin, ?_, ?_, rfl⟩
+  · rw [List.mem_eraseDups, mem_objectsOf]
+    apply foldl_from_mono
+    apply foldl_from_mono'
+    exact List.mem_cons_of_mem _ (List.mem_cons_of_mem _ h)
+  · by_cases hfx : fin = x
+    · simp [hrep hfx]
+    · have : (x != fin) = true := by simpa using fun h' => hfx h'.symm
+      simp [this]
+
+/-- every other internal node `j` of the step receives the argument's node -/
+theorem wire_some_siblings (k : Core) (n x i j : Nat) (h : (n, j) ∈ k.ints) (hji : j ≠ i) :
+    (j, x) ∈ (wire k n x (some i)).frm := by
+  simp only [wire]
+  apply foldl_from_mono
+  rw [mem_foldl_from (fun j => some j != some i) (fun j => j) (fun _ => x)]
+  refine Or.inr ⟨j, ?_, by simpa using hji, rfl⟩
+  rw [(foldl_from_frame' (fun j => j) (fun _ => i) _ _).2.2.2]
+  exact (mem_intsOf _ _ _).2 h
+
 theorem add_fd (g : GState) (t : Triple) : (g.add t).fd = g.fd := by
   unfold GState.add; split <;> rfl
 
@@ -124,5 +160,73 @@ theorem addExpr_nested {G : GLang} {c : GCfg} {root : Node} {origin : Option Nod
         rw [hfrm]; exact wire_some_sub _ _ _ _ _ (Or.inl hp)
       · intro μ hμ
         rw [hfrm]; exact wire_some_sub _ _ _ _ _ (Or.inr (Or.inr (Or.inr ⟨μ, hμ, rfl⟩)))
+
+/-- The wiring of a passed operation, on the model itself (any configuration, any expression, any
+state). `lam = g1.nextB + 1` is the internal node made for the argument `x`, `g2` the state after
+`x` has been added (before the wiring).
+* `lam` receives every input `fin` that the step `fnode` has in `g2`; this includes `x`'s own node when
+  it is an input of `fnode` already (`repeated`: the same source passed a second time);
+* every other internal node `j` of the step receives `x`'s node;
+* in a state where `fnode ≠ xnode` and `fnode` is not an internal node of itself or of `xnode`, the new
+  edges are exactly: `xnode → lam`, `fnode → xnode`, `μ → lam` for the internal nodes `μ` of `xnode`,
+  `j → xnode` for the other internal nodes `j` of `fnode`, and `lam → fin` for the inputs `fin` that
+  `fnode` has in `g2`. -/
+theorem addExpr_wiring {G : GLang} {c : GCfg} {root : Node} {origin : Option Node} {g g' : GState}
+    {f x : TExpr} {ty : Term} {m : Nat} {im : Bool} {n : Nat}
+    (hfun : x.ty.isFunction = true)
+    (h : addExpr G c root origin g (.app f x ty) (some m) im = .ok (g', n)) :
+    ∃ (g1 : GState) (fnode : Nat) (gi g2 : GState) (xnode : Nat),
+      addExpr G c root origin g f (some m) im = .ok (g1, fnode) ∧
+      gi.nextB = g1.nextB + 2 ∧ gi.internals = g1.internals ++ [(fnode, g1.nextB + 1)] ∧
+      gi.srcNodes = g1.srcNodes ∧ gi.sharedNodes = g1.sharedNodes ∧ gi.fd = g1.fd ∧
+      addExpr G c root origin gi x (some g1.nextB) true = .ok (g2, xnode) ∧
+      g'.internals = g2.internals ∧
+      (∀ fin, (fnode, fin) ∈ g2.fd.frm → (g1.nextB + 1, fin) ∈ g'.fd.frm) ∧
+      (∀ j, (fnode, j) ∈ g2.internals → j ≠ g1.nextB + 1 → (j, xnode) ∈ g'.fd.frm) ∧
+      (fnode ≠ xnode → (fnode, fnode) ∉ g2.internals → (xnode, fnode) ∉ g2.internals →
+        ∀ p, p ∈ g'.fd.frm ↔
+          p ∈ g2.fd.frm ∨ p = (xnode, g1.nextB + 1) ∨ p = (fnode, xnode) ∨
+          (∃ μ, (xnode, μ) ∈ g2.internals ∧ p = (μ, g1.nextB + 1)) ∨
+          (∃ j, (fnode, j) ∈ g2.internals ∧ j ≠ g1.nextB + 1 ∧ p = (j, xnode)) ∨
+          (∃ fin, (fnode, fin) ∈ g2.fd.frm ∧ p = (g1.nextB + 1, fin))) := by
+  rw [addExpr_app] at h
+  simp only [curG] at h
+  cases hf : addExpr G c root origin g f (some m) im with
+  | error e => rw [hf] at h; cases h
+  | ok r1 =>
+    obtain ⟨g1, fnode⟩ := r1
+    rw [hf] at h
+    simp only [hfun] at h
+    cases hx : addExpr G c root origin (mkInternalG g1.fresh.1 fnode true).1 x (some g1.fresh.2) true with
+    | error e => rw [hx] at h; cases h
+    | ok r2 =>
+      obtain ⟨g2, xnode⟩ := r2
+      rw [hx] at h
+      simp only [] at h
+      cases h
+      have hci : (mkInternalG g1.fresh.1 fnode true).2 = some (g1.nextB + 1) := rfl
+      rw [hci]
+      have hcore := coreOf_wireG c origin g2 m fnode xnode (some (g1.nextB + 1))
+      have hfrm : (wireG c origin g2 m fnode xnode (some (g1.nextB + 1))).fd.frm =
+          (wire (coreOf g2) fnode xnode (some (g1.nextB + 1))).frm := congrArg Core.frm hcore
+      have hint : (wireG c origin g2 m fnode xnode (some (g1.nextB + 1))).internals = g2.internals := by
+        have := congrArg Core.ints hcore
+        rw [(wire_frame _ _ _ _).2.2.2] at this
+        exact this
+      refine ⟨g1, fnode, (mkInternalG g1.fresh.1 fnode true).1, g2, xnode, rfl, ?_, ?_, ?_, ?_, ?_, hx, hint, ?_, ?_, ?_⟩
+      · have := congrArg Core.nextB (coreOf_mkInternalG g1.fresh.1 fnode true); exact this
+      · have := congrArg Core.ints (coreOf_mkInternalG g1.fresh.1 fnode true); exact this
+      · have := congrArg Core.src (coreOf_mkInternalG g1.fresh.1 fnode true); exact this
+      · have := congrArg Core.shared (coreOf_mkInternalG g1.fresh.1 fnode true); exact this
+      · show (mkInternalG g1.fresh.1 fnode true).1.fd = g1.fd
+        simp only [mkInternalG, if_true]
+        rw [add_fd]; rfl
+      · intro fin hfin
+        rw [hfrm]; exact wire_some_inputs _ _ _ _ _ hfin
+      · intro j hj hji
+        rw [hfrm]; exact wire_some_siblings _ _ _ _ _ hj hji
+      · intro h1 h2 h3 p
+        rw [hfrm]
+        exact wire_some_mem_all (coreOf g2) fnode xnode (g1.nextB + 1) p h1 h2 h3
 
 end Tfv.C08P
